@@ -64,6 +64,9 @@ func (it c20Item) sql() string {
 		return fmt.Sprintf("CASE WHEN a >= %d THEN SETVAR(%s, a) ELSE SETVAR(%s, id) END", it.CaseK, it.ksql(), it.k2sql())
 	case "if_get":
 		return fmt.Sprintf("IF(a >= %d, GETVAR(%s), GETVAR(%s)) AS %s", it.CaseK, it.ksql(), it.k2sql(), it.Alias)
+	case "await_get":
+		// AWAIT defers the read until every row has been evaluated: it sees the register's final value
+		return fmt.Sprintf("AWAIT(GETVAR(%s)) AS %s", it.ksql(), it.Alias)
 	case "col":
 		return it.Col
 	case "get":
@@ -166,7 +169,7 @@ func genC20(t *rapid.T) *Bundle {
 		ni := rapid.IntRange(1, 7).Draw(t, "nitems")
 		usedCols := map[string]bool{}
 		for i := 0; i < ni; i++ {
-			kinds := []string{"set", "get", "set", "get", "col", "async", "spin", "getsub", "setv_async", "case_set", "if_get"}
+			kinds := []string{"set", "get", "set", "get", "col", "async", "spin", "getsub", "setv_async", "case_set", "if_get", "await_get"}
 			if q.Dual {
 				kinds = []string{"set", "get"}
 			}
@@ -185,6 +188,9 @@ func genC20(t *rapid.T) *Bundle {
 				it.Key, it.KeySQL = drawKey("key")
 				it.Key2, it.Key2SQL = drawKey("key2")
 				it.CaseK = rapid.IntRange(0, 4).Draw(t, "case_k") * 10
+			case "await_get":
+				it.Key, it.KeySQL = drawKey("key")
+				it.Alias = fmt.Sprintf("w%d", i)
 			case "if_get":
 				it.Key, it.KeySQL = drawKey("key")
 				it.Key2, it.Key2SQL = drawKey("key2")
@@ -264,6 +270,8 @@ func genC20(t *rapid.T) *Bundle {
 					out[it.Alias] = model[it.Key] // nil when never set
 				case "async":
 					out[it.Alias] = stubValue("fx", it.Site, row["a"])
+				case "await_get":
+					out[it.Alias] = "$AWAIT:" + it.Key
 				case "getsub":
 					out[it.Alias] = map[string]any{"g": model[it.Key]}
 				case "case_set":
@@ -302,6 +310,15 @@ func genC20(t *rapid.T) *Bundle {
 				}
 			}
 			rows = append(rows, out)
+		}
+		// awaited reads see the state after the last row of this query
+		for _, r := range rows {
+			out := r.(map[string]any)
+			for k, v := range out {
+				if sv, ok := v.(string); ok && strings.HasPrefix(sv, "$AWAIT:") {
+					out[k] = model[strings.TrimPrefix(sv, "$AWAIT:")]
+				}
+			}
 		}
 		snap := map[string]any{}
 		for k, v := range model {
